@@ -14,7 +14,7 @@ LEVEL = "exploration"
 def specs_for(ctx):
     rng = random.Random(ctx.seed + 5)
     specs = []
-    n = ctx.pick(90, 3000)
+    n = ctx.pick(90, 1500)
     for i in range(n):
         kind = rng.random()
         if kind < 0.2:
@@ -37,7 +37,7 @@ def specs_for(ctx):
                       "solve": {"method": method, "allow_negatives": rng.random() < 0.5}})
     # many small SQUARE systems with distorted geometry: exact solutions with negative entries at varying positions
     # (inversion path with allow_negatives on / off; the fallback must take over whenever any tension is negative)
-    for i in range(ctx.pick(260, 4000)):
+    for i in range(ctx.pick(260, 2000)):
         specs.append({"tissue": {"kind": "catalogue", "base": "hexflower", "sagitta": rng.choice([None, None, 0.1]),
                                  "tseed": rng.randrange(10 ** 6), "jitter": rng.choice([0.3, 0.5, 0.7])},
                       "k": rng.choice([1, 2]), "seed": rng.randrange(10 ** 9), "want": ["C05"],
@@ -46,7 +46,7 @@ def specs_for(ctx):
                       "build": {"limit": "inf", "fit": "taubinSVD"},
                       "solve": {"method": "default", "allow_negatives": rng.random() < 0.3}})
     # velocity right-hand sides (dynamic series): inconsistent or consistent systems with b != 0
-    for i in range(ctx.pick(16, 600)):
+    for i in range(ctx.pick(16, 300)):
         nframes = rng.choice([2, 3, 4])
         tissue = {"kind": "equilibrium", "ncells": rng.choice([6, 10, 16]), "mobius": rng.choice([0.0, 0.8])} if rng.random() < 0.7 else \
                  {"kind": "catalogue", "base": rng.choice(["hexflower", "hex33"]), "sagitta": rng.choice([None, 0.15]), "tseed": rng.randrange(10 ** 6)}
